@@ -1203,7 +1203,7 @@ func (ce *cenv) pseudo(name string, x *ast.CallExpr) (Val, bool) {
 		fn := fnNameArg(x.Args[0])
 		idx, _ := strconv.Atoi(types.ExprString(x.Args[1]))
 		rt, ok := ex.lastResTypes[fmt.Sprintf("%s.%d", fn, idx)]
-		if !ok && (fn == "RawConn.Control" || fn == "RawConn.Write" || fn == "RawConn.Read") && idx == 0 {
+		if !ok && (fn == "RawConn.Control" || fn == "RawConn.Write" || fn == "RawConn.Read" || fn == "DecodeLayers") && idx == 0 {
 			rt, ok = errorT(), true
 		}
 		if !ok {
